@@ -55,6 +55,10 @@ Corruptions(tc0) ==
   \cup {C([tc0 EXCEPT !.ins = SwapRows(tc0.ins, j)], "index", j, "ins_swap", 0) : j \in 1..(Len(tc0.ins) - 1)}
   \cup {C([tc0 EXCEPT !.rem = SwapRows(tc0.rem, j)], "index", j, "rem_swap", 0) : j \in 1..(Len(tc0.rem) - 1)}
   \cup {C([tc0 EXCEPT !.ins[j] = tc0.ins[1]], "index", j, "ins_dup", 0) : j \in 2..Len(tc0.ins)}
+  \* a removal order that names one edge twice and another never - also among the edges that end at the sequence length, which are
+  \* never "removed" by a left-to-right sweep
+  \cup {C([tc0 EXCEPT !.rem[j] = tc0.rem[1]], "index", j, "rem_dup", 0) : j \in 2..Len(tc0.rem)}
+  \cup {C([tc0 EXCEPT !.rem[j] = tc0.rem[j - 1]], "index", j, "rem_dup_prev", 0) : j \in 2..Len(tc0.rem)}
   \cup UNION {{C([tc0 EXCEPT !.rem[j] = v], "index", j, "rem_oob", v) : v \in {-1, Len(tc0.edges)}} : j \in Rows(tc0.rem)}
   \cup UNION {{C([tc0 EXCEPT !.ins[j] = v], "index", j, "ins_oob", v) : v \in {-1, Len(tc0.edges)}} : j \in Rows(tc0.ins)}
 
